@@ -277,7 +277,67 @@ fn variants_case(out: &mut Out, rng: &mut Rng) {
     out.case(&format!("variants:{}", show_man(&m)), true);
 }
 
+/// The face of the listed finding that `C12.checkpoint_name_damage_drops_checkpoint` proves for every
+/// manifest, on the REAL recovery: a store with a checkpoint (key `old`) and one later segment
+/// (key `new`); bit 0 of the first letter of the NAME "checkpoint" in the stored manifest is flipped
+/// (damage at rest, a read that returns it — the same to the reader); `RecoveryManager::recover`
+/// returns Ok without the checkpoint: `old` is gone, no error.
+fn checkpoint_name_flip_on_recovery(out: &mut Out) {
+    use crate::c11::{chk_key, fold_recovered, seg_key, PREFIX};
+    use crate::c12::{lww_upd, FaultStore};
+    use redis_sim::replication::lattice::ReplicaId;
+    use redis_sim::replication::state::ReplicationDelta;
+    use redis_sim::streaming::{CheckpointWriter, Compression, ManifestManager, ObjectStore, RecoveryManager, SegmentWriter};
+    let rt = tokio::runtime::Builder::new_current_thread().enable_all().build().unwrap();
+    rt.block_on(async {
+        let store = FaultStore::new(&[]);
+        let old = lww_upd("old", b"covered-by-the-checkpoint", 5, 1, false);
+        let new = lww_upd("new", b"in-a-later-segment", 9, 1, false);
+        let mut state = std::collections::HashMap::new();
+        state.insert(old.0.clone(), old.1.clone());
+        let chk = CheckpointWriter::new(Compression::None).write(state, 1000, 0).unwrap();
+        store.put(&chk_key(1000), &chk).await.unwrap();
+        let mut w = SegmentWriter::new(Compression::None);
+        w.write_delta(&ReplicationDelta::new(new.0.clone(), new.1.clone(), ReplicaId::new(1))).unwrap();
+        let seg = w.finish().unwrap();
+        store.put(&seg_key(1), &seg).await.unwrap();
+        let mut m = Manifest::new(1);
+        m.add_segment(SegmentInfo { id: 1, key: seg_key(1), record_count: 1, size_bytes: seg.len() as u64, min_timestamp: 9, max_timestamp: 9 });
+        m.checkpoint = Some(CheckpointInfo { key: chk_key(1000), timestamp_ms: 1000, key_count: 1, last_segment_id: 0 });
+        ManifestManager::new(store.clone(), PREFIX).save(&m).await.unwrap();
+        let clean = RecoveryManager::new(store.clone(), PREFIX, 1).recover().await;
+        let clean_keys = clean.as_ref().map(|r| fold_recovered(r).len()).unwrap_or(0);
+        // damage: bit 0 of the `c` of "checkpoint"
+        let mkey = format!("{}/manifest.json", PREFIX);
+        let mut body = store.image().get(&mkey).cloned().unwrap();
+        let pos = body.windows(12).position(|w| w == b"\"checkpoint\"").map(|p| p + 1);
+        match pos {
+            None => out.violation("C12:manifest-json:checkpoint-name-not-found", "the stored manifest does not contain the member name \"checkpoint\"", json!(null)),
+            Some(p) => {
+                body[p] ^= 1;
+                store.put(&mkey, &body).await.unwrap();
+                let r = RecoveryManager::new(store.clone(), PREFIX, 1).recover().await;
+                match r {
+                    Ok(rs) => {
+                        let keys = fold_recovered(&rs).len();
+                        if rs.checkpoint_state.is_none() && keys < clean_keys {
+                            out.count("j:recovery:checkpoint-name-flip:checkpoint-silently-ignored");
+                            out.violation("C12:read-corruption-accepted:manifest:read-flip", "one flipped bit in the member NAME \"checkpoint\" of the manifest: recover() returns Ok without the checkpoint (the reader skips the unknown field, the Option defaults to None): every key covered only by the checkpoint is gone, no error",
+                                json!({"clean_keys": clean_keys, "keys_after_flip": keys, "flipped_byte_offset": p}));
+                        } else {
+                            out.count("j:recovery:checkpoint-name-flip:detected-or-harmless");
+                        }
+                    }
+                    Err(_) => out.count("j:recovery:checkpoint-name-flip:rejected"),
+                }
+            }
+        }
+    });
+    out.case("checkpoint-name-flip-on-recovery", true);
+}
+
 pub fn run_all(out: &mut Out, rng: &mut Rng, n: u64) {
+    checkpoint_name_flip_on_recovery(out);
     // a manifest as the workloads produce it: runs first on every run
     let typical = Manifest {
         version: 3,
